@@ -8,7 +8,10 @@ transaction's ops are in the op set but not in the change graph, so a save or a 
 with the transaction open misses them. (R9) save_incremental saves `after self.save_cursor` and then
 advances the cursor to the document's heads (only when bytes were produced); save_with_options
 advances it likewise; Automerge::save_after emits raw_bytes of exactly get_changes(heads).
-SyncWrapper is built only by AutoCommit::sync, which closes the transaction.
+SyncWrapper is built only by AutoCommit::sync, which closes the transaction. The save cursor is written only by
+the saving entry points (a save_after for caller-chosen heads must not move it). (R9-replace) load_incremental
+replaces the whole document (`*self = loaded`) only under Automerge::is_empty(), and is_empty() looks at both the
+change graph and the queue of not-yet-ready changes (replacing a document that holds queued changes drops them).
 Not decided: that the concatenated chunks reload to the same document (C11/C18: value-level).
 """
 from .. import cfg, util, rules, facts, callgraph
@@ -63,6 +66,7 @@ def run(ctx):
     ctx.rule("R10-close", "must-pass-through: ensure_transaction_closed dominates every history-sensitive use of self.doc")
     ctx.rule("R9-cursor", "provenance of save_after's heads argument and of the save_cursor assignment")
     ctx.rule("R10-wrapper", "who-may-construct SyncWrapper")
+    ctx.rule("R9-replace", "the replace-self fast path of load_incremental is edge-dominated by is_empty() == true; is_empty covers graph and queue")
     f = ctx.facts()
     fns = autocommit_fns(f)
     table = ctx.table("r10_close.tsv")
@@ -142,3 +146,46 @@ def run(ctx):
         pv = sv.provenance(rb[0][1]["args"][0], through_calls=True)
         okr = okr and (DOC + "::get_changes") in {norm_fn(c) for c in pv.callees()}
     ctx.ob("R9-cursor", "Automerge::save_after|emits raw_bytes of those changes", okr, sv.rec["sp"], "")
+
+    # ---------------- who may write the save cursor
+    writers = set()
+    for p in fns:
+        r = f.fns[p]
+        b = cfg.body(r)
+        for blk in b.blocks:
+            if blk.get("cleanup"):
+                continue
+            for st in blk["st"]:
+                d = st["d"]
+                if d["p"] and ".save_cursor" in d["p"]:
+                    writers.add(norm_fn(p))
+    ctx.floor("functions writing AutoCommit.save_cursor", len(writers), 2)
+    for w in sorted(writers):
+        # constructors build the struct with an aggregate, not a field write; anything else writing the cursor must be a saving entry point
+        ok = w in (AC + "::save_incremental", AC + "::save_with_options")
+        ctx.ob("R9-cursor", "save_cursor written by %s" % w.split("::")[-1], ok, f.fns[[p for p in fns if norm_fn(p) == w][0]]["sp"],
+               "a saving entry point" if ok else "%s moves the incremental-save cursor: a later save_incremental() omits changes that were never written by it" % w.split("::")[-1])
+    # ---------------- load_incremental's replace-the-document fast path
+    li = ctx.body(DOC + "::load_incremental_log_patches")
+    whole = [(bi, st) for bi, blk in enumerate(li.blocks) if not blk.get("cleanup") for st in blk["st"]
+             if st["d"]["l"] == 1 and st["d"]["p"] == ["*"] and util.base_ty(li.local_ty(1)) == DOC]
+    ctx.floor("whole-document assignments in load_incremental_log_patches", len(whole), 1)
+
+    def empty_true(src):
+        if src["kind"] == "call" and norm_fn(src["callee"]) == DOC + "::is_empty":
+            o = li.operand_origin(src["t"]["args"][0])
+            if o and o[0] == 1:
+                return True
+        return None
+    edges = rules.guard_edges(li, empty_true)
+    for k, (bi, st) in util.ordinal_keys(whole, lambda w: "load_incremental_log_patches|*self = loaded document"):
+        ok = bool(edges) and li.edges_dominate(edges, bi)
+        ctx.ob("R9-replace", k, ok, st["sp"], "only when self.is_empty()" if ok else "the document is replaced wholesale without Automerge::is_empty() having held: queued (not yet ready) changes or applied changes are dropped")
+    ie = ctx.body(DOC + "::is_empty")
+    fields = set()
+    for bi, t in ie.calls():
+        for a in t["args"][:1]:
+            o = ie.operand_origin(a)
+            if o and o[0] == 1:
+                fields |= {e[1:] for e in o[1] if e.startswith(".")}
+    ctx.ob("R9-replace", "Automerge::is_empty|tests change_graph and queue", {"change_graph", "queue"} <= fields, ie.rec["sp"], "emptiness of %s" % sorted(fields))
